@@ -1,6 +1,8 @@
 package main
 
 import (
+	"go/ast"
+	"go/constant"
 	"fmt"
 	"go/token"
 	"go/types"
@@ -334,4 +336,93 @@ func boundTarget(w *ssa.Function) *ssa.Function {
 		}
 	}
 	return nil
+}
+
+// GlobalUses lists every instruction in the loaded source functions that has g as an operand.
+func (p *Prog) GlobalUses(g *ssa.Global) []ssa.Instruction {
+	var out []ssa.Instruction
+	for _, fn := range p.AllFuncs() {
+		for _, b := range fn.Blocks {
+			for _, in := range b.Instrs {
+				for _, op := range in.Operands(nil) {
+					if *op == ssa.Value(g) {
+						out = append(out, in)
+						break
+					}
+				}
+			}
+		}
+	}
+	return out
+}
+
+// VElemOf: value is an element load of a slice/array/string satisfying S (x[i] or range element).
+func VElemOf(S func(ssa.Value) bool) func(ssa.Value) bool {
+	return func(v ssa.Value) bool {
+		v = Strip(v)
+		switch x := v.(type) {
+		case *ssa.UnOp:
+			if x.Op == token.MUL {
+				if ia, ok := x.X.(*ssa.IndexAddr); ok {
+					return S(ia.X)
+				}
+			}
+		case *ssa.Index:
+			return S(x.X)
+		case *ssa.Lookup:
+			return S(x.X)
+		}
+		return false
+	}
+}
+
+// AstVarInit returns the initialiser expression of a package-level variable.
+func (p *Prog) AstVarInit(pkg, name string) ast.Expr {
+	pk := p.Pkgs[pkg]
+	if pk == nil {
+		anchorFail(pkg+"."+name, "package not loaded from source")
+	}
+	obj := pk.Types.Scope().Lookup(name)
+	for _, file := range pk.Syntax {
+		for _, d := range file.Decls {
+			gd, ok := d.(*ast.GenDecl)
+			if !ok {
+				continue
+			}
+			for _, sp := range gd.Specs {
+				vs, ok := sp.(*ast.ValueSpec)
+				if !ok {
+					continue
+				}
+				for i, n := range vs.Names {
+					if pk.TypesInfo.Defs[n] == obj && obj != nil {
+						if i < len(vs.Values) {
+							return vs.Values[i]
+						}
+						return nil
+					}
+				}
+			}
+		}
+	}
+	anchorFail(pkg+"."+name, "no declaration found")
+	return nil
+}
+
+// ConstStringsOf returns the constant string elements of a composite literal expression.
+func (p *Prog) ConstStringsOf(pkg string, e ast.Expr) ([]string, bool) {
+	cl, ok := e.(*ast.CompositeLit)
+	if !ok {
+		return nil, false
+	}
+	pk := p.Pkgs[pkg]
+	var out []string
+	for _, el := range cl.Elts {
+		tv := pk.TypesInfo.Types[el]
+		if tv.Value == nil || tv.Value.Kind() != constant.String {
+			return nil, false
+		}
+		out = append(out, constant.StringVal(tv.Value))
+	}
+	return out, true
 }
